@@ -68,7 +68,9 @@ def waitOf (cfg : Cfg) (cur r : Q) : Q := capped cfg cur + jitter cfg r
 
 /-- The `while True` loop.  `outcomes k`: does the `(k+1)`-th `connect()` return normally;
     `rands k`: the `(k+1)`-th value of `random.random()`; `abortAt = some k`: the `(k+1)`-th wait
-    returns with the abort event set.  `k` = `attempt_count`, `cur` = `current_delay`. -/
+    returns with the abort event set (whatever its timeout: `Event.wait(t ≤ 0)` returns the flag, and
+    the AsyncClient reads `is_set()` after a `wait_for` that timed out — repaired in 411c959, before
+    which a timeout ≤ 0 never saw the flag).  `k` = `attempt_count`, `cur` = `current_delay`. -/
 def loop (cfg : Cfg) (outcomes : Nat → Bool) (rands : Nat → Q) (abortAt : Option Nat) :
     Nat → Nat → Q → Res
   | 0, k, _ => ⟨[], k, .running⟩
